@@ -21,3 +21,4 @@ CFG = dict(
                 "(the statement scopes it to 'while it is running'); sync.RWMutex grant order is not asserted.",
      assumptions=["testing/synctest and runtime.Stack(all) snapshots are correct", "callers pair their calls correctly and avoid lock-order cycles"],
      timeout_quick=600, timeout_thorough=3000)
+CFG["rule"] += ' TestFifoArrivalOrderOneP: one P; the second caller is started only after a stack census shows the first inside Lock (any state), with 0-6 extra scheduler turns at both places (exhaustive); the first must be granted first.'
